@@ -557,11 +557,8 @@ fn sub_arraydata(c: &mut Case) -> CaseResult {
     // known finding F1: ArrayData::slice of a Struct node slices the children AND keeps the offset, which
     // StructArray::from(ArrayData) applies again -> make_array panics. Types containing a struct are therefore not
     // sliced at the ArrayData level here (excluded by construction, counted); repro in the `findings` sub-check.
-    let has_struct = ty.any(&|t| matches!(t, LType::Struct(_) | LType::Map { .. }));
-    if has_struct && !c.strict {
-        c.exclude("F1-arraydata-slice-struct");
-    }
-    if n >= 2 && c.tape.chance(90) && (c.strict || !has_struct) {
+    // (finding F1 - ArrayData::slice of struct nodes - was fixed in b1d112f: struct types are sliced here as well)
+    if n >= 2 && c.tape.chance(90) {
         let o = 1 + c.tape.below(n - 1);
         data = data.slice(o, n - o);
         c.class("node-offset>0");
